@@ -52,6 +52,10 @@ Definition chk_M_index labels probes (observed : res vobs) : bool :=
 Definition chk_S_index labels probes (observed : res vobs) : bool :=
   robs_eqb (vS_index labels probes) (robs_canon observed).
 
+(* Index(labels, dtype=d): raw = labels as given, cast = np.array(labels, dtype=d) *)
+Definition chk_M_index_dtype raw cast probes (observed : res vobs) : bool :=
+  robs_eqb (M_index_dtype val_eqb vto_Z (map canon raw) (map canon cast) (map vkey probes)) (robs_canon observed).
+
 Definition chk_M_auto (n : Z) probes (observed : vobs) : bool :=
   obs_eqb (M_auto val_eqb VInt vto_Z (Z.to_nat n) (map vkey probes)) (obs_canon observed).
 Definition chk_S_auto (n : Z) probes (observed : vobs) : bool :=
